@@ -2006,6 +2006,11 @@ class Stream(AbstractStream):
         new._property_cache_key = self._property_cache_key
         new.equations = self.equations
         new.characterization_factors = self.characterization_factors
+        if hasattr(self, '_streams'): # Multi-phase streams also share phase views and equilibrium caches
+            new._streams = self._streams
+            new._vle_cache = self._vle_cache
+            new._lle_cache = self._lle_cache
+            new._sle_cache = self._sle_cache
         return new
     
     def empty(self):
